@@ -9,7 +9,9 @@ fn usage() -> ! {
 }
 
 fn main() {
-    silence_panics();
+    if std::env::var("VERIF_DEBUG_PANIC").is_err() {
+        silence_panics();
+    }
     let args: Vec<String> = std::env::args().skip(1).collect();
     if args.len() < 2 {
         usage();
